@@ -40,7 +40,9 @@ import c18lib as L
 PID = "C18"
 # built in coq/ (independent of the source text); Gen_Params / GenAgree / Props are compiled per tree (c18lib.ParamsTree)
 TARGETS = ["Params/Model.vo", "Params/Proofs.vo"]
-QCLS = ["Length", "Duration", "Speed"]          # class tag = index
+# class tag = index; 3/4, 5/6, 7/8 are pairs of DIFFERENT classes with the SAME SI signature
+QCLS = ["Length", "Duration", "Speed", "Torque", "Energy", "Frequency", "RadioActivity", "AbsorbedDose", "EquivalentDose"]
+TWIN = {3: 4, 4: 3, 5: 6, 6: 5, 7: 8, 8: 7}
 EXN = ["TypeError", "ValueError", "KeyError", "NotImplementedError", "AttributeError"]
 KINDS = ["map", "int", "float", "str", "bool", "qty", "sel", "unit"]
 
@@ -651,7 +653,9 @@ class Exec:
                 if not spec_valid(rn["spec"], p.value):
                     return (f"invalid-value-held:{type(p).__name__}",
                             f"{p.extended_key()} holds {canon(p.value)} which does not satisfy the type/bounds/options it was declared with "
-                            f"({ {k: rn['spec'].get(k) for k in ('kind', 'mn', 'mx', 'opts', 'qcls') if k in rn['spec']} })")
+                            f"({ {k: rn['spec'].get(k) for k in ('kind', 'mn', 'mx', 'opts', 'qcls') if k in rn['spec']} }"
+                            + (f", declared class {QCLS[rn['spec']['default'][1]]}" if rn['spec']['kind'] == 'qty'
+                               and rn['spec']['default'][0] == 'qtymk' else "") + ")")
         for R in self.roots():
           for p, _d in self.walk(R, 1):
             cls = type(p).__name__
@@ -750,7 +754,9 @@ INTS = [0, 1, -1, 2, 3, 5, 7, 10, 42, 100, -5, 11, 2 ** 53 + 1, 10 ** 30, -10 **
 FLOATS = [0.0, -0.0, 0.5, 1.0, 1.5, 2.0, 2.5, 3.0, 0.1, 9.75, -1.25, 10.0, 1e10, 1e308, 5e-324, -2.5,
           math.inf, -math.inf, math.nan, 2.0 ** 53, 10.000000000000002, 0.49999999999999994]
 STRS = ["a", "b", "abc", "x y", "km", "m/s", "", "CA", "MD", "dot.ted", "h", "mm", "μm"]
-QUNITS = {0: [None, "m", "km", "mm", "ft"], 1: [None, "s", "min", "h", "ms"], 2: [None, "m/s", "km/h", "kt"]}
+QUNITS = {0: [None, "m", "km", "mm", "ft"], 1: [None, "s", "min", "h", "ms"], 2: [None, "m/s", "km/h", "kt"],
+          3: [None, "N.m", "lbf.ft"], 4: [None, "J", "kJ"], 5: [None, "Hz", "kHz"], 6: [None, "Bq", "kBq"],
+          7: [None, "Gy", "mGy"], 8: [None, "Sv", "mSv"]}
 KEYS = ["a", "b", "c", "d", "p1", "k2", "sub", "m", "x"]
 BADKEYS = ["", "a.b", ".", "x."]
 PRIOS = [["int", 1], ["int", 2], ["int", 3], ["int", 4], ["float", (0.5).hex()], ["float", (1.5).hex()],
@@ -771,7 +777,7 @@ def vfloat(rng):
 
 
 def vqty(rng, cls=None):
-    cls = rng.randrange(3) if cls is None else cls
+    cls = rng.randrange(len(QCLS)) if cls is None else cls
     num = rng.choice([["float", fhex(x)] for x in (0.0, 1.0, 2.5, 3.0, 0.1, 7.0, -1.0, 1000.0)] + [["int", 3], ["int", 0], ["int", 12]])
     unit = rng.choice(QUNITS[cls])
     if rng.random() < 0.08:
@@ -835,7 +841,10 @@ def _value_for(rng, p):
             cls = mods()["qcls"].index(p.type)
         except Exception:
             cls = None
-        return vqty(rng, cls if rng.random() < 0.85 else None)
+        u = rng.random()
+        if cls in TWIN and u >= 0.65 and u < 0.9:
+            return vqty(rng, TWIN[cls])          # a different class with the same SI signature: must be refused
+        return vqty(rng, cls if u < 0.85 else None)
     if isinstance(p, P.InputParameterSelectionList):
         try:
             o = list(p.options)
@@ -1319,7 +1328,7 @@ def emit_cases(path: Path, cases):
 # ------------------------------------------------------------------ main
 RULE = ("random operation sequences (10-28 ops; every 5th from a malformed-heavy stream) on a DSOLModel's parameter tree, "
         "all eight parameter classes, depth <= 3, values valid and invalid per class (wrong type, out of bounds, not an option, "
-        "wrong quantity class, bool for int, SI / Quantity for float, NaN, +-inf, -0.0, 10**400, read-only), paths existing and malformed, "
+        "wrong quantity class incl. a different class with the same SI signature (Torque/Energy, Frequency/RadioActivity, AbsorbedDose/EquivalentDose), bool for int, SI / Quantity for float, NaN, +-inf, -0.0, 10**400, read-only), paths existing and malformed, "
         "existing objects offered to maps that hold their key (refused re-adds; an accepted re-add ends the sequence); "
         "40% of the sequences also build parent-less objects (mostly maps), fill them, read all extended keys and attach them "
         "to the tree or to each other later; every removed object stays addressable as a retired object and may be added again "
@@ -1360,7 +1369,8 @@ def main(tier: str) -> int:
         "Python floats enter the model as the exact rationals they denote (float.as_integer_ratio) plus NaN, +-inf, -0.0; "
         "parameters.py only stores and compares values and Python compares int with float exactly",
         "sorted() modelled as stable insertion sort (proved a stable sort); display priorities are finite non-NaN numbers",
-        "Quantity values are (class, si, unit) triples of three classes (Length, Duration, Speed), si computed by the live class; "
+        "Quantity values are (class, si, unit) triples of nine classes (Length, Duration, Speed and the same-signature pairs "
+        "Torque/Energy, Frequency/RadioActivity, AbsorbedDose/EquivalentDose), si computed by the live class; "
         "unit lists of InputParameterUnit are read from the live classes",
         "constructor arguments of the wrong Python type for key/name/priority/read_only/format_str/options and object aliasing "
         "(the same parameter object in two maps, re-adding a removed object) are outside the model",
@@ -1374,7 +1384,7 @@ def main(tier: str) -> int:
                       {}, found_input=False)
         return run.finish()
     rng = random.Random(run.seed * 104729 + 18)
-    n_random = 4000 if tier == "quick" else 60000
+    n_random = 3000 if tier == "quick" else 60000
     cases = []          # list of obs lists
     fails = {}          # signature -> (ops, what)
     hist_ops, hist_exc, set_hist, bottom_up = {}, {}, {}, {}
